@@ -118,6 +118,7 @@ type pkgInfo struct {
 	funcs   map[string]*ast.FuncDecl
 	order   []string
 	hand    map[string]bool // struct declared in a file without the "Code generated" header
+	consts  map[string]ast.Expr // package-level constants with a literal value
 }
 
 func scalarWidth(t string) int {
@@ -151,7 +152,7 @@ func typeStr(e ast.Expr) string {
 }
 
 func loadPkg(root, short, dir string) *pkgInfo {
-	pi := &pkgInfo{short: short, structs: map[string]*ast.StructType{}, methods: map[string]map[string]*ast.FuncDecl{}, funcs: map[string]*ast.FuncDecl{}, hand: map[string]bool{}}
+	pi := &pkgInfo{short: short, structs: map[string]*ast.StructType{}, methods: map[string]map[string]*ast.FuncDecl{}, funcs: map[string]*ast.FuncDecl{}, hand: map[string]bool{}, consts: map[string]ast.Expr{}}
 	files, _ := filepath.Glob(filepath.Join(root, dir, "*.go"))
 	sort.Strings(files)
 	for _, f := range files {
@@ -172,6 +173,17 @@ func loadPkg(root, short, dir string) *pkgInfo {
 		for _, d := range af.Decls {
 			switch d := d.(type) {
 			case *ast.GenDecl:
+				if d.Tok == token.CONST {
+					for _, s := range d.Specs {
+						if vs, ok := s.(*ast.ValueSpec); ok && len(vs.Names) == len(vs.Values) {
+							for k, n := range vs.Names {
+								if _, ok := intLit(vs.Values[k]); ok {
+									pi.consts[n.Name] = vs.Values[k]
+								}
+							}
+						}
+					}
+				}
 				for _, s := range d.Specs {
 					if ts, ok := s.(*ast.TypeSpec); ok {
 						if st, ok := ts.Type.(*ast.StructType); ok {
@@ -799,6 +811,12 @@ func (c *ctx) readCallOp(s ast.Node, call ast.Expr, f string) Op {
 			return c.opaque(s)
 		}
 		fl, ok := args[1].(*ast.FuncLit)
+		if id, isID := args[1].(*ast.Ident); isID && !ok {
+			// a constructor of the package used as the factory value: func NewX() *X { return &X{} }
+			if ctor := c.pi.funcs[id.Name]; ctor != nil && ctor.Body != nil && ctor.Type.Params != nil && len(ctor.Type.Params.List) == 0 {
+				fl, ok = &ast.FuncLit{Type: ctor.Type, Body: ctor.Body}, true
+			}
+		}
 		if !ok || len(fl.Body.List) != 1 || len(fl.Type.Params.List) != 0 {
 			return c.opaque(s)
 		}
@@ -1069,9 +1087,10 @@ func (c *ctx) frameEncode(fd *ast.FuncDecl) (*Frame, string) {
 	}
 	// checksum
 	if i < len(stmts) {
-		if is, ok := stmts[i].(*ast.IfStmt); ok && is.Init != nil && strings.HasPrefix(src(is.Init), "checksumService, ok := codec.Get(") {
+		if is, ok := stmts[i].(*ast.IfStmt); ok && is.Init != nil && isGetInit(is.Init) {
 			as := is.Init.(*ast.AssignStmt)
 			gc := as.Rhs[0].(*ast.CallExpr)
+			svcVar := as.Lhs[0].(*ast.Ident).Name
 			lit, ok := gc.Args[0].(*ast.BasicLit)
 			if !ok || lit.Kind != token.STRING || src(is.Cond) != "ok" || len(is.Body.List) != 1 || is.Else != nil {
 				return fail("checksum block", stmts[i])
@@ -1096,7 +1115,7 @@ func (c *ctx) frameEncode(fd *ast.FuncDecl) (*Frame, string) {
 			if !ok || top.K != "scalar" || top.E != fr.E {
 				return fail("checksum trailer", stmts[i+1])
 			}
-			want := fmt.Sprintf("%s.%s = checksumService.(codec.ChecksumService[*bytes.Buffer, %s]).Calc(bytes.NewBuffer(buf.Bytes()[%s:]))", c.recv, cf, c.ftype[cf], frameStart)
+			want := fmt.Sprintf("%s.%s = %s.(codec.ChecksumService[*bytes.Buffer, %s]).Calc(bytes.NewBuffer(buf.Bytes()[%s:]))", c.recv, cf, svcVar, c.ftype[cf], frameStart)
 			if frameStart == "" || src2(is.Body.List[0]) != want {
 				return fail("checksum span/type", is.Body.List[0])
 			}
@@ -1116,6 +1135,85 @@ func (c *ctx) frameEncode(fd *ast.FuncDecl) (*Frame, string) {
 	return fr, ""
 }
 
+// `SVC, ok := codec.Get(<one argument>)`
+func isGetInit(s ast.Stmt) bool {
+	as, ok := s.(*ast.AssignStmt)
+	if !ok || as.Tok != token.DEFINE || len(as.Lhs) != 2 || len(as.Rhs) != 1 {
+		return false
+	}
+	a, ok1 := as.Lhs[0].(*ast.Ident)
+	b, ok2 := as.Lhs[1].(*ast.Ident)
+	if !ok1 || !ok2 || a.Name == "_" || b.Name != "ok" {
+		return false
+	}
+	name, _, args, ok := codecCall(as.Rhs[0])
+	return ok && name == "Get" && len(args) == 1
+}
+
+func hasOpaque(ops []Op) bool {
+	for _, o := range ops {
+		if o.K == "opaque" {
+			return true
+		}
+	}
+	return false
+}
+
+func uses(n ast.Node, sel string) bool {
+	found := false
+	ast.Inspect(n, func(x ast.Node) bool {
+		if s, ok := x.(*ast.SelectorExpr); ok && s.Sel.Name == sel {
+			found = true
+		}
+		return true
+	})
+	return found
+}
+
+func opsEqual(a, b []Op) bool {
+	if len(a) != len(b) {
+		return false
+	}
+	for i := range a {
+		x, y := a[i], b[i]
+		x.Src, y.Src = "", ""
+		if x != y {
+			return false
+		}
+	}
+	return true
+}
+
+var symCheck = os.Getenv("XLATE_SYMCHECK") != ""
+
+// withSymex: the recognisers' op list stands when it is complete; when it contains an unrecognised statement the
+// symbolic executor's answer is taken if IT recognises the whole body.  (XLATE_SYMCHECK=1 runs both on every method and
+// reports where they differ: they must agree wherever both are complete.)
+func (c *ctx) withSymex(sc *Schema, t *Type, fd *ast.FuncDecl, write bool, legacy []Op) []Op {
+	dir := map[bool]string{true: "Encode", false: "Decode"}[write]
+	if !hasOpaque(legacy) && !symCheck {
+		return legacy
+	}
+	ops, why := c.symOps(fd, write)
+	if symCheck {
+		switch {
+		case why != "" && !hasOpaque(legacy):
+			fmt.Fprintf(os.Stderr, "symcheck %s.%s.%s: executor gave up (%s), recognisers complete\n", t.Pkg, t.Name, dir, why)
+		case why == "" && !hasOpaque(legacy) && !opsEqual(ops, legacy):
+			fmt.Fprintf(os.Stderr, "symcheck %s.%s.%s: DIFFERENT\n  exec: %v\n  reco: %v\n", t.Pkg, t.Name, dir, ops, legacy)
+		}
+	}
+	if !hasOpaque(legacy) {
+		return legacy
+	}
+	if why != "" {
+		sc.Notes = append(sc.Notes, fmt.Sprintf("%s.%s.%s: not recognised; symbolic execution gave up: %s", t.Pkg, t.Name, dir, why))
+		return legacy
+	}
+	sc.Notes = append(sc.Notes, fmt.Sprintf("%s.%s.%s: op list obtained by symbolic execution", t.Pkg, t.Name, dir))
+	return ops
+}
+
 func src2(n ast.Node) string {
 	var b bytes.Buffer
 	printer.Fprint(&b, fset, n)
@@ -1132,30 +1230,18 @@ func (pi *pkgInfo) tables(sc *Schema, tyID func(pkg, name string) (int, bool)) {
 		if fd.Type.Params == nil || len(fd.Type.Params.List) != 1 || fd.Type.Results == nil || len(fd.Type.Results.List) != 2 {
 			continue
 		}
-		if len(fd.Body.List) != 2 {
+		if len(fd.Type.Params.List[0].Names) != 1 {
 			continue
 		}
-		is, ok := fd.Body.List[0].(*ast.IfStmt)
-		if !ok || is.Init == nil {
-			continue
+		cacheName, shape := lookupShape(fd)
+		if shape == "" {
+			continue // not a function that reads a map at its parameter
 		}
-		as, ok := is.Init.(*ast.AssignStmt)
-		if !ok || len(as.Rhs) != 1 {
-			continue
-		}
-		ix, ok := as.Rhs[0].(*ast.IndexExpr)
-		if !ok {
-			continue
-		}
-		cache, ok := ix.X.(*ast.Ident)
-		if !ok {
-			continue
-		}
-		want := fmt.Sprintf("if factory, ok := %s[key]; ok { return factory(), nil }", cache.Name)
-		if src2(is) != want || !strings.HasPrefix(src2(fd.Body.List[1]), "return nil, fmt.Errorf(") {
+		if shape == "?" {
 			sc.Notes = append(sc.Notes, "unrecognised lookup function "+pi.short+"."+name)
 			continue
 		}
+		cache := ast.NewIdent(cacheName)
 		kt := typeStr(fd.Type.Params.List[0].Type)
 		kind := "num"
 		if kt == "string" {
@@ -1242,6 +1328,78 @@ func (pi *pkgInfo) tables(sc *Schema, tyID func(pkg, name string) (int, bool)) {
 	}
 }
 
+// lookupShape recognises the two spellings of a discriminator look-up (names are irrelevant):
+//   A:  if f, ok := CACHE[key]; ok { return f(), nil }; return nil, <fresh error>
+//   B:  f, ok := CACHE[key]; if !ok { return nil, <fresh error> }; return f(), nil
+// It returns the map's name and "A"/"B", ("", "") when the function does not index a package map by its parameter at all,
+// and (name, "?") when it does but in another way.
+func lookupShape(fd *ast.FuncDecl) (string, string) {
+	key := fd.Type.Params.List[0].Names[0].Name
+	cache := ""
+	ast.Inspect(fd.Body, func(n ast.Node) bool {
+		if ix, ok := n.(*ast.IndexExpr); ok {
+			if m, ok := ix.X.(*ast.Ident); ok {
+				if k, ok := ix.Index.(*ast.Ident); ok && k.Name == key && cache == "" {
+					cache = m.Name
+				}
+			}
+		}
+		return true
+	})
+	if cache == "" {
+		return "", ""
+	}
+	load := func(s ast.Stmt) (f, okn string, good bool) {
+		as, ok := s.(*ast.AssignStmt)
+		if !ok || as.Tok != token.DEFINE || len(as.Lhs) != 2 || len(as.Rhs) != 1 {
+			return
+		}
+		ix, ok := as.Rhs[0].(*ast.IndexExpr)
+		if !ok || src(ix.X) != cache || src(ix.Index) != key {
+			return
+		}
+		a, ok1 := as.Lhs[0].(*ast.Ident)
+		b, ok2 := as.Lhs[1].(*ast.Ident)
+		if !ok1 || !ok2 || a.Name == "_" || b.Name == "_" {
+			return
+		}
+		return a.Name, b.Name, true
+	}
+	retCall := func(s ast.Stmt, f string) bool { // return f(), nil
+		r, ok := s.(*ast.ReturnStmt)
+		if !ok || len(r.Results) != 2 || src(r.Results[1]) != "nil" {
+			return false
+		}
+		c, ok := r.Results[0].(*ast.CallExpr)
+		return ok && len(c.Args) == 0 && src(c.Fun) == f
+	}
+	retErr := func(s ast.Stmt) bool { // return nil, fmt.Errorf(...) / errors.New(...)
+		r, ok := s.(*ast.ReturnStmt)
+		if !ok || len(r.Results) != 2 || src(r.Results[0]) != "nil" {
+			return false
+		}
+		c, ok := r.Results[1].(*ast.CallExpr)
+		return ok && (src(c.Fun) == "fmt.Errorf" || src(c.Fun) == "errors.New")
+	}
+	b := fd.Body.List
+	if len(b) == 2 {
+		if is, ok := b[0].(*ast.IfStmt); ok && is.Init != nil && is.Else == nil && len(is.Body.List) == 1 {
+			if f, okn, good := load(is.Init); good && src(is.Cond) == okn && retCall(is.Body.List[0], f) && retErr(b[1]) {
+				return cache, "A"
+			}
+		}
+	}
+	if len(b) == 3 {
+		if f, okn, good := load(b[0]); good {
+			if is, ok := b[1].(*ast.IfStmt); ok && is.Init == nil && is.Else == nil && len(is.Body.List) == 1 && src(is.Cond) == "!"+okn &&
+				retErr(is.Body.List[0]) && retCall(b[2], f) {
+				return cache, "B"
+			}
+		}
+	}
+	return cache, "?"
+}
+
 // ---- main -----------------------------------------------------------------------------------------
 
 func main() {
@@ -1311,10 +1469,28 @@ func main() {
 			}
 			return "_"
 		}
+		pi.normaliseMethod(t.Name, dec, 0)
+		pi.normaliseMethod(t.Name, enc, 0)
 		c.recv = recvName(dec)
 		t.Dec = c.decodeOps(dec)
+		t.Dec = c.withSymex(sc, t, dec, false, t.Dec)
 		c.recv = recvName(enc)
 		fr, why := c.frameEncode(enc)
+		if fr == nil && why != "" {
+			// the recogniser does not know this spelling of a frame: run it symbolically
+			if sf, swhy := c.symFrame(enc); sf != nil {
+				fr, why = sf, ""
+				sc.Notes = append(sc.Notes, fmt.Sprintf("%s.%s.Encode: frame descriptor obtained by symbolic execution", t.Pkg, t.Name))
+			} else {
+				why += "; symbolic execution gave up: " + swhy
+			}
+		} else if fr != nil && symCheck {
+			if sf, swhy := c.symFrame(enc); sf == nil {
+				fmt.Fprintf(os.Stderr, "symcheck %s.%s.Encode (frame): executor gave up (%s)\n", t.Pkg, t.Name, swhy)
+			} else if fmt.Sprint(*sf) != fmt.Sprint(*fr) {
+				fmt.Fprintf(os.Stderr, "symcheck %s.%s.Encode (frame): DIFFERENT\n  exec: %v\n  reco: %v\n", t.Pkg, t.Name, *sf, *fr)
+			}
+		}
 		if fr != nil {
 			// key/table from the decoder's union op, which must sit right after the length field
 			k := len(fr.Hdr) + 1
@@ -1330,6 +1506,9 @@ func main() {
 			t.Enc = []Op{}
 		} else {
 			t.Enc = c.encodeOps(enc)
+			if !uses(enc, "PutUint32") {
+				t.Enc = c.withSymex(sc, t, enc, true, t.Enc)
+			}
 			if why != "" {
 				sc.Notes = append(sc.Notes, fmt.Sprintf("%s.%s: frame shape not recognised (%s)", t.Pkg, t.Name, why))
 			}
